@@ -62,10 +62,22 @@ func drawStructOf(t *rapid.T) reflect.Type {
 	n := 1 + sim.Intn(t, 4, "nfields")
 	var fs []reflect.StructField
 	for i := 0; i < n; i++ {
-		fs = append(fs, reflect.StructField{
+		f := reflect.StructField{
 			Name: []string{"X", "Y", "Z", "In", "Name", "N"}[i] + []string{"", "a", "b"}[sim.Intn(t, 3, "suffix")],
 			Type: structOfFieldTypes[sim.Intn(t, len(structOfFieldTypes), "ftype")],
-		})
+		}
+		// json tags (names from a pool that cannot collide with any field name)
+		switch sim.Weighted(t, "tag", 6, 1, 1, 1, 1) {
+		case 1:
+			f.Tag = reflect.StructTag(fmt.Sprintf(`json:"t%d"`, i))
+		case 2:
+			f.Tag = `json:",omitempty"`
+		case 3:
+			f.Tag = `json:"-"`
+		case 4:
+			f.Tag = reflect.StructTag(fmt.Sprintf(`json:"Tag%d,omitempty"`, i))
+		}
+		fs = append(fs, f)
 	}
 	// distinct names
 	seen := map[string]bool{}
@@ -211,7 +223,8 @@ func fill(t *rapid.T, rv reflect.Value, depth int) {
 		rv.Set(p)
 	case reflect.Struct:
 		for i := 0; i < rv.NumField(); i++ {
-			if rv.Type().Field(i).PkgPath == "" {
+			sf := rv.Type().Field(i)
+			if sf.PkgPath == "" && sf.Tag.Get("json") != "-" { // a field tagged "-" is not written: it stays zero
 				fill(t, rv.Field(i), depth-1)
 			}
 		}
